@@ -479,6 +479,9 @@ def make_builtins(I):
 
     @b("enumerate")
     def _enumerate(it, start=0):
+        if isinstance(it, TArr):
+            from .interp import SymEnum
+            return SymEnum(it, start)
         return [(i + start, x) for i, x in enumerate(I.iterate(it))]
 
     @b("zip")
